@@ -39,6 +39,14 @@ def programs(ctx):
             if rules and rng.random() < 0.5:
                 # a head formula related to an earlier one (equal, sub-formula, weak/strong or dual sibling): shared formula objects
                 g = gen.related(rng, rng.choice(rules)['head'][1])
+                if rng.random() < 0.4:
+                    # the same formula written differently (an abbreviation expanded somewhere): a different theory atom with the same meaning
+                    from props import c16
+                    f0 = rng.choice(rules)['head'][1]
+                    ps = [x for x in c16.positions(f0, True) if not findings.fml_has(x[2], ('final', 'finally'))]
+                    if ps:
+                        pth, law, rep = rng.choice(ps)
+                        g = c16.replace(f0, pth, rep)
                 if not findings.fml_has(g, ('prev', 'wprev', 'since', 'trigger', 'initially', 'seqprev', 'seqwprev', 'impr', 'impl', 'eqv')):
                     r = dict(r, head=('tel', g))
             rules.append(r)
